@@ -599,9 +599,23 @@ int main(int argc, char** argv)
         int s = sb_idx(a1);
         e.str("s", a1);
         try {
-          W->sb[s]->free_in_sandbox(W->last_malloc[s]);
+#if !defined(BK_NATIVE)
+          unsigned long before = W->sb[s]->get_sandbox_impl()->n_free;
+#endif
+          // alternately through the tainted and the opaque form of the pointer
+          static unsigned nfree = 0;
+          bool opaque = (nfree++ % 2) == 1;
+          if (opaque) {
+            W->sb[s]->free_in_sandbox(W->last_malloc[s].to_opaque());
+          } else {
+            W->sb[s]->free_in_sandbox(W->last_malloc[s]);
+          }
           W->last_malloc[s] = nullptr;
-          e.str("out", "ok");
+          e.str("out", "ok").str("form", opaque ? "opaque" : "tainted");
+#if !defined(BK_NATIVE)
+          // did the request reach the backend's allocator?
+          e.boolean("reached", W->sb[s]->get_sandbox_impl()->n_free != before).boolean("live", W->created[s]);
+#endif
         } catch (const std::runtime_error&) {
           e.str("out", "abort");
         }
